@@ -1194,9 +1194,51 @@ class Interp:
                     kwargs["$star"] = v
             else:
                 kwargs[k.arg] = v
+        args, kwargs = self._positionalise(callee, args, kwargs)
         for cb in self.on_call:
             cb(self, fn, node, callee, args, kwargs, env)
         return self.apply(callee, args, kwargs, node, env, fn)
+
+    def _positionalise(self, callee, args, kwargs):
+        """Keyword arguments that name the next positional parameters of a callee with a known signature are moved into the positional list, so that
+        observers and domain transfer functions see `f(a, b)` whether the code says `f(a, b)`, `f(a, y=b)` or `f(x=a, y=b)`."""
+        if any(isinstance(a, tuple) and len(a) == 2 and a[0] == "*" for a in args) or any(str(k).startswith("$") for k in kwargs):
+            return args, kwargs
+        params = None
+        if isinstance(callee, FuncRef) and len(callee.funcs) >= 1:
+            sigs = set()
+            for f in callee.funcs:
+                if f.is_overload:
+                    continue
+                a = f.node.args
+                ps = [x.arg for x in list(a.posonlyargs) + list(a.args)]
+                if f.cls is not None and f.parent is None and not f.is_staticmethod and ps and (callee.bound is not None or f.is_classmethod):
+                    ps = ps[1:]
+                sigs.add(tuple(ps))
+            if len(sigs) == 1:
+                params = list(sigs.pop())
+        elif isinstance(callee, ClassRef):
+            init = callee.cls.find_method("__init__")
+            if init is not None:
+                a = init.node.args
+                params = [x.arg for x in list(a.posonlyargs) + list(a.args)][1:]
+        elif isinstance(callee, ExtRef) and callee.name:
+            try:
+                from .match import EXTERNAL_SIGNATURES as _ES
+                cands = _ES.get(callee.name.rsplit(".", 1)[-1])
+                if cands and len(cands) == 1:
+                    params = list(cands[0])
+            except Exception:
+                params = None
+        if not params:
+            return args, kwargs
+        args = list(args)
+        kwargs = dict(kwargs)
+        i = len(args)
+        while i < len(params) and params[i] in kwargs:
+            args.append(kwargs.pop(params[i]))
+            i += 1
+        return args, kwargs
 
     def apply(self, callee, args, kwargs, node, env, fn):
         if isinstance(callee, FuncRef):
